@@ -98,7 +98,7 @@ func c14Scenario(sp c14Spec) *explore.Scenario {
 	spec := sp
 	return &explore.Scenario{
 		Name:  spec.Name,
-		Cache: false, // the mock file system is shared, unhooked harness state
+		Cache: false, // the linearizability oracle depends on real-time order of calls and returns, which equivalent traces do not preserve
 		Body: func() any {
 			st := &c14State{fs: mockfs.New(), cur: map[string]*opRec{}, setup: spec.Setup}
 			st.sess = p9p.SFileSys(st.fs)
